@@ -6,6 +6,7 @@ import Fx.Eval
 import Fx.Xdr
 import Fx.Lemmas.Runtime
 import Fx.Lemmas.Roundtrip
+import Fx.Lemmas.Selects
 namespace Fx.C01
 open Fx
 
@@ -74,5 +75,18 @@ theorem C01_wire_size_is_encoded_length (a : Ast) (m : Module) (hs : Supported a
   have h2 := this.2.1
   simp only at h2
   omega
+
+/-- **C01, unconditional on the supported subset**: `MatchSelects` is itself a theorem (`C06_match_selects`). -/
+theorem C01_roundtrip_supported (a : Ast) (m : Module) (hs : Supported a = true) (hg : generateModule a = .ok m)
+    (n : String) (x : XVal) (h : hasTypeNamed a n x = true)
+    (fuel : Nat) (hf : x.fsize < fuel) (off : Nat) (s : List Byte) (l : List Ev) :
+    ∃ l', evalImpl a m.plans fuel n ⟨off, x.enc ++ s, l⟩ = .ok (reprNamed a n off x) ⟨off + x.enc.length, s, l'⟩ :=
+  roundtrip hs hg (match_selects_of_supported hs hg) n x h fuel hf off s l
+
+/-- `wire_size()` of the decoded value is the length of the encoding, unconditionally on the supported subset -/
+theorem C01_wire_size_supported (a : Ast) (m : Module) (hs : Supported a = true) (hg : generateModule a = .ok m)
+    (n : String) (x : XVal) (h : hasTypeNamed a n x = true) :
+    wsVal m.plans (reprNamed a n 0 x) = x.enc.length :=
+  C01_wire_size_is_encoded_length a m hs hg (match_selects_of_supported hs hg) n x h
 
 end Fx.C01
